@@ -415,6 +415,12 @@ impl Run {
             }
             return true;
         }
+        // development aid only (never set by the registered commands): sample the enumeration
+        let scale = std::env::var("VERIF_CASE_SCALE").ok().and_then(|v| v.parse::<f64>().ok()).filter(|f| *f > 0.0 && *f < 1.0);
+        let stride = scale.map(|f| (1.0 / f).round() as u64).unwrap_or(1).max(1);
+        let total = n;
+        let n = n.div_ceil(stride);
+        let f = |i: u64, ev: &mut Ev| f((i * stride).min(total - 1), ev);
         let t0 = Instant::now();
         let workers = self.workers.min(n.max(1) as usize).max(1);
         let results: Vec<(Ev, Option<(u64, Fail)>)> = std::thread::scope(|s| {
